@@ -145,6 +145,38 @@ func intFactExpr(group, name, dir string, e ast.Expr, src string) {
 	emit(group, name, "Int", fmt.Sprintf("%d", v), src+" = "+show(e))
 }
 
+// markedUnderLock: on every control-flow path of the function (lock walker of facts_c17.go: branches, early returns,
+// defer), every call whose printed callee matches callRe happens while the named mutex field is held, and there is
+// at least one such call.
+func markedUnderLock(dir, key, field, callRe string) bool {
+	cr := regexp.MustCompile(callRe)
+	w := &lockWalker{dir: dir, classes: map[string]int{field: 0}, listed: map[string]string{}, stack: map[string]bool{}, cache: map[string][][]lockEv{}}
+	w.markerOf = func(n ast.Node) (int, bool) {
+		if c, ok := n.(*ast.CallExpr); ok && cr.MatchString(show(c.Fun)+"(") {
+			return 100, true
+		}
+		return 0, false
+	}
+	seen := false
+	for _, p := range w.fnPrograms(key) {
+		held := 0
+		for _, e := range p {
+			switch {
+			case e.cls >= 100:
+				seen = true
+				if held <= 0 {
+					return false
+				}
+			case e.acq:
+				held++
+			default:
+				held--
+			}
+		}
+	}
+	return seen && len(w.bad) == 0
+}
+
 func factsSender() {
 	g := "Sender"
 	w := fnOf(mx, "Stream.Write")
@@ -165,7 +197,8 @@ func factsSender() {
 	// --- the three call chains into obfuscateAndSend
 	// Write is modelled as ONE critical section (closed test + all frames): the whole body must be locked
 	boolFact(g, "lockWrite", wholeBodyLocked(we, reWLock, reWUnlock) && callsUnderLock(we, reWLock, reWUnlock, send), "Stream.Write: Lock; defer Unlock open the body (closed test and every obfuscateAndSend call in one critical section)")
-	boolFact(g, "lockReadFrom", callsUnderLock(re, reWLock, reWUnlock, send), "Stream.ReadFrom: every obfuscateAndSend call is under writingM")
+	boolFact(g, "lockReadFrom", callsUnderLock(re, reWLock, reWUnlock, send) || markedUnderLock(mx, "Stream.ReadFrom", "writingM", send),
+		"Stream.ReadFrom: every obfuscateAndSend call is under writingM (on every control-flow path)")
 	// Close: the active closeStream call is under writingM, and closeStream sends only in its `if active` branch
 	closeLocked := wholeBodyLocked(ce, reWLock, reWUnlock) && callsUnderLock(ce, reWLock, reWUnlock, `\.closeStream\(`)
 	iIf := idx(cse, 0, "if", `^active$`)
